@@ -8,8 +8,8 @@
    For EVERY shape and EVERY trace the observable automaton accepts from the initial state (all plans,
    all plugin outcomes, all interleavings the engine's concurrency structure admits, no bound):      *)
 From Coercion.Base Require Import Plan.
-From Coercion.Engine Require Import Shape Event PlanSM Auto Accept.
-From Coercion.C04 Require Import MonC04 C04Proofs.
+From Coercion.Engine Require Import Shape Event Final PlanSM Auto Accept AutoLemmas.
+From Coercion.C04 Require Import MonC04 InvDefs C04Proofs.
 
 (* a trace accepted up to and including the return of Wait satisfies every clause evaluated at the release:
    plan Completed|Failed, nothing Running, no plugin executing (overrun-cancelled invocations apart), the
@@ -31,3 +31,40 @@ Theorem c04_final_released :
     run sh init tr = Some s -> released s = true -> mon_final_core (sh, tr) = true.
 Proof. exact c04_final_released. Qed.
 Print Assumptions c04_final_released.
+
+(* ---- the two ingredients (DESIGN.md section 6, C04) ---- *)
+(* image_invariant: the durable image of EVERY reachable state satisfies the generalisation of `consistent` in
+   which objects in progress may be Running.  (InvDefs.settled c: NotStarted with 0 attempts and no verdict, or
+   Completed with attempts and last one ok, or Failed with attempts and last one not ok.) *)
+Theorem image_invariant :
+  forall (sh : shape) (tr : list event) (s : st),
+    run sh init tr = Some s ->
+    (forall a, obj_in_shape sh (OAct a) = true ->
+       c_st (iget (s_img s) (OAct a)) <> Running -> settled (iget (s_img s) (OAct a)))
+    /\ (forall b q rs, seq_of sh b q = Some rs ->
+          (ist (s_img s) (OSeq b q) = Completed ->
+             forall i, i < length rs -> c_st (iget (s_img s) (OAct (ASeq b q i))) = Completed)
+          /\ (ist (s_img s) (OSeq b q) = Failed ->
+               exists j, j < length rs
+                 /\ (forall i, i < j -> c_st (iget (s_img s) (OAct (ASeq b q i))) = Completed)
+                 /\ c_st (iget (s_img s) (OAct (ASeq b q j))) = Failed
+                 /\ (forall i, j < i -> i < length rs -> iget (s_img s) (OAct (ASeq b q i)) = cell0)))
+    /\ ist (s_img s) OPlan <> Stopped.
+Proof. exact image_invariant. Qed.
+Print Assumptions image_invariant.
+
+(* final_sound: on every image reachable at PEnd (s0 = the run's end state after phase moves), Final.final - the
+   transcription of finalStates, tied to the code by direct function equality on every run, and the only
+   terminal plan write the automaton admits - returns the durable status and reason, and that reason is the
+   first stage (pre, continuous, block, post, deferred) whose failure the TRACE shows (MonC04.shown_reason over
+   the monitor's tallies of tr), FRUnknown exactly when the status is Completed. *)
+Theorem final_sound :
+  forall (sh : shape) (tr : list event) (s s0 : st) (fin : image),
+    run sh init tr = Some s -> eps_star sh s s0 -> s_ph s0 = PEnd ->
+    is_terminal (ist (s_img s0) OPlan) = true ->
+    image_agrees (all_objs sh) (s_img s0) (s_reason s0) fin = true ->
+    (ist (s_img s0) OPlan, s_reason s0) = final sh (ist (s_img s0))
+    /\ snd (final sh (ist (s_img s0))) = shown_reason sh (m_t (mon_after tr)) fin
+    /\ (fst (final sh (ist (s_img s0))) = Completed <-> snd (final sh (ist (s_img s0))) = FRUnknown).
+Proof. exact final_sound. Qed.
+Print Assumptions final_sound.
